@@ -34,6 +34,7 @@ type Case struct {
 	D        int64  `json:"switching_delay_ns"`
 	Init     []int  `json:"init"`
 	NameSet  int    `json:"nameSet,omitempty"` // 0: a..e; 1: names with separators; 2: 300 endpoints
+	InPlace  bool   `json:"inPlace,omitempty"` // the caller keeps one slice and edits it in place between SetEndpoints calls
 	Ops      []Op   `json:"ops"`
 	Failure  *Fail  `json:"failure,omitempty"`
 }
@@ -307,7 +308,12 @@ func Run(c *Case, props map[string]bool) (res Result) {
 	if len(init) == 0 || hasDup(init) {
 		init = []string{"a"}
 	}
-	me, err := multiendpoint.NewMultiEndpoint(&multiendpoint.MultiEndpointOptions{Endpoints: append([]string{}, init...), RecoveryTimeout: R, SwitchingDelay: D})
+	callerList := append(make([]string, 0, 512), init...)
+	initArg := append([]string{}, init...)
+	if c.InPlace {
+		initArg = callerList
+	}
+	me, err := multiendpoint.NewMultiEndpoint(&multiendpoint.MultiEndpointOptions{Endpoints: initArg, RecoveryTimeout: R, SwitchingDelay: D})
 	if err != nil {
 		fail("C13", "create", "NewMultiEndpoint(%v): %v", init, err)
 		endIfOtherFailed()
@@ -477,7 +483,18 @@ func Run(c *Case, props map[string]bool) (res Result) {
 			if pendingSwitch || len(clk.inflight()) > 0 {
 				opWhilePending = true
 			}
-			err := me.SetEndpoints(append([]string{}, nl...))
+			arg := append([]string{}, nl...)
+			if c.InPlace {
+				// the caller's one slice (same backing array), edited in place
+				if cap(callerList) < len(nl) {
+					callerList = append(make([]string, 0, 512), callerList...)
+				}
+				callerList = callerList[:len(nl)]
+				copy(callerList, nl)
+				arg = callerList
+				lab["list-edited-in-place"]++
+			}
+			err := me.SetEndpoints(arg)
 			if len(nl) == 0 {
 				lab["empty-list"]++
 				if err == nil {
